@@ -33,6 +33,9 @@
 #include <netinet/in.h>
 #include <netinet/tcp.h>
 #include <poll.h>
+#include <sys/mman.h>
+#include <sys/wait.h>
+#include <unistd.h>
 #include <sys/ioctl.h>
 
 namespace {
@@ -431,6 +434,7 @@ bool runBehaviour(Ctx &ctx, const QString &caseId, const QJsonArray &steps)
         return false;
     }
     ctx.reset(caseId);
+    ctx.out.flush();
     Script sc { w, {} };
     bool fine = true;
     for (const auto &sv : steps) {
@@ -478,6 +482,7 @@ bool runBehaviour(Ctx &ctx, const QString &caseId, const QJsonArray &steps)
             fine = false;
         }
         ctx.emit_(ev);
+        ctx.out.flush();  // a crash in a later step must not lose this line
         if (!fine) {
             break;
         }
@@ -493,21 +498,73 @@ bool runBehaviour(Ctx &ctx, const QString &caseId, const QJsonArray &steps)
 
 QXV_DRIVER(server)
 {
+    // Behaviours run in forked children (batches): a crash of the implementation (the behaviours
+    // come from the model and include sequences no honest client produces) ends that execution
+    // only; the parent records it as {"e":"Crash"} and starts a new child at the next behaviour.
+    // --fork=0 disables (debugging).
     const auto behs = ctx.behaviours();
-    int skip = ctx.optInt("skip", 0);
-    int n = 0, bad = 0;
-    for (const auto &bv : behs) {
-        ++n;
-        if (n <= skip) {
+    const bool useFork = ctx.optInt("fork", 1) != 0;
+    const int batch = ctx.optInt("batch", 100);
+    struct Shared {
+        int cur;       // index of the behaviour being executed
+        int hung;
+        long lines;
+    };
+    auto *sh = static_cast<Shared *>(mmap(nullptr, sizeof(Shared), PROT_READ | PROT_WRITE, MAP_SHARED | MAP_ANONYMOUS, -1, 0));
+    if (sh == MAP_FAILED) {
+        fprintf(stderr, "server: mmap failed\n");
+        return 2;
+    }
+    *sh = Shared { 0, 0, 0 };
+    auto runRange = [&](int from, int to) {
+        for (int i = from; i < to; i++) {
+            sh->cur = i;
+            if (!runBehaviour(ctx, QStringLiteral("s%1").arg(i + 1), behs[i].toObject()["steps"].toArray())) {
+                ++sh->hung;
+            }
+            ctx.out.flush();
+        }
+    };
+    int crashed = 0;
+    if (!useFork) {
+        runRange(0, behs.size());
+    }
+    for (int next = 0; useFork && next < behs.size();) {
+        const int to = std::min<int>(next + batch, behs.size());
+        ctx.out.flush();
+        fflush(nullptr);
+        pid_t pid = fork();
+        if (pid < 0) {
+            fprintf(stderr, "server: fork failed\n");
+            return 2;
+        }
+        if (pid == 0) {
+            qint64 l0 = ctx.lines;
+            runRange(next, to);
+            sh->lines += ctx.lines - l0;
+            ctx.out.flush();
+            fflush(nullptr);
+            _exit(0);
+        }
+        int st = 0;
+        while (waitpid(pid, &st, 0) < 0 && errno == EINTR) { }
+        if (WIFEXITED(st) && WEXITSTATUS(st) == 0) {
+            next = to;
             continue;
         }
-        if (!runBehaviour(ctx, QStringLiteral("s%1").arg(n), bv.toObject()["steps"].toArray())) {
-            ++bad;
-        }
-        ctx.out.flush();
+        ++crashed;
+        ctx.out.seek(ctx.out.size());
+        ctx.emit_(QJsonObject { { "e", "Crash" }, { "case", QStringLiteral("s%1").arg(sh->cur + 1) },
+                                { "how", WIFSIGNALED(st) ? QStringLiteral("signal %1").arg(WTERMSIG(st)) : QStringLiteral("exit %1").arg(WEXITSTATUS(st)) } });
+        next = sh->cur + 1;
     }
-    if (bad) {
-        fprintf(stderr, "server: %d executions hit the hang detector\n", bad);
+    ctx.cases = behs.size();
+    ctx.lines += sh->lines;
+    if (crashed) {
+        fprintf(stderr, "server: %d executions ended by a crash of the implementation\n", crashed);
+    }
+    if (sh->hung) {
+        fprintf(stderr, "server: %d executions hit the hang detector\n", sh->hung);
         return 4;
     }
     return 0;
